@@ -14,6 +14,7 @@ fn l_repeat() -> Layout {
   use KeyCode::*;
   Layout { mappings: vec![m(&[A], &[A], Repeat::Disabled), m(&[B], &[B], Repeat::Special { keys: vec![LEFTCTRL, C], delay_ms: 130, interval_ms: 30 })] }
 }
+fn l_out_key() -> Layout { use KeyCode::*; Layout { mappings: vec![m(&[B], &[D], Repeat::Special { keys: vec![E], delay_ms: 130, interval_ms: 30 }), m(&[A], &[C], Repeat::Normal)] } }
 fn l_chord() -> Layout { use KeyCode::*; Layout { mappings: vec![m(&[CAPSLOCK], &[], Repeat::Normal), m(&[CAPSLOCK, J], &[LEFT], Repeat::Normal)] } }
 fn l_two_repeats() -> Layout {
   use KeyCode::*;
@@ -41,11 +42,16 @@ fn families(id: &str, tier: Tier) -> Vec<BFamily<'static>> {
       add("plain A->B over {A,C}", l_plain(), cfg(&[A, C], l, 0, d, 0, 30));
       add("chord CAPSLOCK->[], CAPSLOCK+J->LEFT over {CAPSLOCK,J}", l_chord(), cfg(&[CAPSLOCK, J], l, 0, d, 0, 30));
       add("no-repeat A->A Disabled, B->B over {A,B,LEFTSHIFT}", l_norepeat(), cfg(&[A, B, LEFTSHIFT], if q { 5 } else { 6 }, 0, d, 0, 30));
+      // the quantifier also interleaves tablet-switch events and puts end-of-device anywhere, on either device
+      let mut ct = cfg(&[A], if q { 4 } else { 5 }, 2, d, 0, 30); ct.tablet_end = true;
+      add("plain A->B over {A} interleaved with up to 2 tablet events, either device may go away", l_plain(), ct);
+      add("chord layout over {CAPSLOCK,J} interleaved with a tablet event", l_chord(), cfg(&[CAPSLOCK, J], if q { 4 } else { 5 }, 1, if q { 0 } else { 1 }, 0, 30));
     }
     "C11" => {
       let (l, t, d) = if q { (4, 3, 1) } else { (5, 5, 2) };
       add("repeat B->B Special{[LEFTCTRL,C],130,30}, A->A Disabled over {A,B,LEFTCTRL}", l_repeat(), cfg(&[A, B, LEFTCTRL], l, 0, d, t, 30));
-      add("same layout with one tablet event", l_repeat(), cfg(&[B, LEFTCTRL], l, 1, if q { 0 } else { 1 }, if q { 2 } else { 3 }, 30));
+      add("same layout with up to two tablet events", l_repeat(), cfg(&[B, LEFTCTRL], l, 2, if q { 0 } else { 1 }, if q { 2 } else { 3 }, 30));
+      add("B->D Special{[E],130,30} over {B,D}: the output key of the repeating mapping is pressed physically", l_out_key(), cfg(&[B, D], l, 0, if q { 0 } else { 1 }, t, 30));
       add("three Special mappings (chords [LEFTCTRL,C], [C,LEFTCTRL,B], []) over {B,J,K}", l_two_repeats(), cfg(&[B, J, K], l, 0, if q { 0 } else { 1 }, t, 10));
       if !q {
         add("super-dvorak repeat keys over {K,J,LEFTCTRL}", l_super_dvorak(), cfg(&[K, J, LEFTCTRL], 3, 0, 1, 4, 30));
